@@ -2,21 +2,100 @@
    Vocabulary: C08_OP.v (state machine, [exchange] = token exchange on either router),
    C08_spec.v (subj_live / actor_live: the presented string is a live token of the declared
    type; op_unconfused: outside the input class of finding Fxx-C08-1), C15_spec.v (client_ok,
-   decided, contained, promised, the predicate spec). wf_clients: client ids are non-empty. *)
-From OIDC Require Import Lib C08_OP.
-From OIDC Require C08_spec C08_proofs C15_spec C15_proofs.
-Import C08_spec C08_proofs C15_proofs.
+   decided, contained, promised, the predicate spec; round 11: intent, wire_faithful, expect_view1/2),
+   C15_Helper.v (round 11: the client helpers new_request / dispatch, the wire form encode / parse,
+   the request views read_full / exch_views). wf_clients: client ids are non-empty. *)
+From OIDC Require Import Lib C08_OP C15_Helper.
+From OIDC Require C08_spec C08_proofs C15_spec C15_proofs C15_Helper_proofs.
+Import C08_spec C08_proofs C15_proofs C15_Helper_proofs.
 
-(* The C15 predicate accepts every run of the model (all client tables with non-empty ids, all
-   histories, both routers), outside the input class of the recorded finding Fxx-C08-1. *)
-Theorem C15_all_histories_partial : forall i : C15_spec.input, wf_input i = true -> unconfused i = true ->
+(* The C15 predicate accepts every run of the model - histories (all client tables with non-empty
+   ids, all histories, both routers) and helper cases (a history, then any call of the client
+   helpers with word lists: NewTokenExchangeRequest with any options in any order,
+   DelegationTokenRequest, ExchangeToken; any credential, router, host) - outside the input
+   class of the recorded finding Fxx-C08-1 (outside_findings). *)
+Theorem C15_all_histories_partial : forall i : C15_spec.input, wf15 i = true -> outside_findings i = true ->
   C15_spec.spec i (C15_spec.model i) = true.
 Proof. exact spec15_model_partial. Qed.
 Print Assumptions C15_all_histories_partial.
 
-Theorem C15_all_histories_refuted : exists i : C15_spec.input, wf_input i = true /\ C15_spec.spec i (C15_spec.model i) = false.
-Proof. exact spec15_model_refuted. Qed.
+Theorem C15_all_histories_refuted : exists h : hist_input, wf_input h = true /\
+  C15_spec.spec (C15_spec.IHist h) (C15_spec.model (C15_spec.IHist h)) = false.
+Proof. exact spec15_hist_refuted. Qed.
 Print Assumptions C15_all_histories_refuted.
+
+(* Round 11 - the client helpers.  NewTokenExchangeRequest(subject, type, options...) builds the
+   request the caller asked for: of the options of one kind the last one counts, every option
+   sets nothing but its own parameter(s), defaults are grant type token-exchange and requested
+   type access_token - for every option list. *)
+Theorem C15_helper_builds_intent : forall subj styp opts,
+  new_request subj styp opts = C15_spec.intent_opts subj styp opts.
+Proof. exact build_is_intent. Qed.
+Print Assumptions C15_helper_builds_intent.
+
+(* Round trip of a space-delimited list (oidc.SpaceDelimitedArray: strings.Join on the client,
+   strings.Split on the provider): the words of the joined list are the list, also the empty one. *)
+Theorem C15_scope_list_roundtrip : forall l, wordlist l = true -> words (join_sp l) = l.
+Proof. exact words_join. Qed.
+Print Assumptions C15_scope_list_roundtrip.
+
+(* Round trip helper -> wire -> provider: for every helper call that asks for a request q (word
+   lists) the helper sends a form w, w carries every parameter faithfully (subject token in
+   subject_token, actor token in actor_token, lists complete and in order, sent to the token
+   endpoint) and the provider's decoder reads exactly q back from it - any number of scopes
+   (Fxx-C15-1 repaired: WithScope sends ONE space-delimited scope parameter). *)
+Theorem C15_helper_roundtrip : forall call q, C15_spec.intent call = Some q -> wf_req q = true ->
+  exists w, dispatch call = Some w /\ parse w = q /\ C15_spec.wire_faithful q w = true.
+Proof. exact helper_roundtrip. Qed.
+Print Assumptions C15_helper_roundtrip.
+
+(* ExchangeToken refuses (sends nothing) exactly when the caller gave no subject token type *)
+Theorem C15_helper_refuses_without_type : forall call, C15_spec.intent call = None <-> dispatch call = None.
+Proof. exact dispatch_none. Qed.
+Print Assumptions C15_helper_refuses_without_type.
+
+(* ... so the provider decides a helper-built request exactly as the token exchange the caller
+   asked for: same subject, declared types, actor, requested type, scopes and audience - after
+   any history, with any credential, on both routers. *)
+Theorem C15_helper_decided_as_asked : forall cl pol ops host ku r c call q,
+  C15_spec.intent call = Some q -> wf_req q = true -> q_grant q = GExchange ->
+  exists w v1 v2, C15_spec.wire_faithful q w = true /\
+    C15_spec.model (C15_spec.IHelp cl pol ops host ku r c call) =
+    C15_spec.OHelp (run_hist (Hist cl pol (ops ++ [(host, ku, Exchange r c (q_subj q) (q_styp q) (q_actor q) (q_requested q) (q_scope q) (q_audience q))])))
+          (Some w) v1 v2.
+Proof. exact helper_decided_as_asked. Qed.
+Print Assumptions C15_helper_decided_as_asked.
+
+(* Why the scopes must travel as one parameter (the encoding before the fix of Fxx-C15-1 sent
+   one scope parameter per scope): of a REPEATED scope parameter the provider's decoder reads the
+   last value only - every other value is lost. *)
+Theorem C15_repeated_scope_parameter_keeps_last : forall w v vs,
+  w_scope w = vs ++ [v] -> q_scope (parse w) = words v.
+Proof. exact repeated_scope_parameter_keeps_last. Qed.
+Print Assumptions C15_repeated_scope_parameter_keeps_last.
+
+(* The request view (the getters of op.TokenExchangeRequest the storage hooks read): for every
+   request, state and router - a success consulted the storage at both hooks; whatever the first
+   hook (ValidateTokenExchangeRequest) is shown is the data of THIS request: GetExchangeSubject /
+   ...TokenType / ...TokenIDOrToken / ...TokenClaims are those of the presented subject token, the
+   actor getters those of the presented actor token (all empty without one - nothing swapped,
+   nothing left over), GetResourses / GetAudience / GetScopes / GetRequestedTokenType what the
+   request carried, GetClientID the authenticated client; the later hooks see the same token data
+   and the storage policy's decisions for subject, scopes and requested type. *)
+Theorem C15_storage_view_is_this_request : forall cl r g nx c subj styp actor req scopes aud res,
+  wf_clients cl = true ->
+  let x := snd (exchange cl r (g, nx) c subj styp actor req scopes aud) in
+  let vs := exch_views cl r g c subj styp actor req scopes aud res in
+  (C15_spec.exch_ok x = true -> fst vs <> None /\ snd vs <> None) /\
+  (fst vs = None -> snd vs = None) /\
+  (forall v, fst vs = Some v ->
+     v = View (C15_spec.subject_of g styp subj) (cred_id c) (C15_spec.expect_tview g styp subj) (actor_expect g actor)
+              res aud scopes req) /\
+  (forall v, snd vs = Some v ->
+     v = View (decided_subject (policy g) (C15_spec.subject_of g styp subj)) (cred_id c) (C15_spec.expect_tview g styp subj)
+              (actor_expect g actor) res aud (decided_scopes (policy g) scopes) (effective_type (policy g) req)).
+Proof. exact exchange_views. Qed.
+Print Assumptions C15_storage_view_is_this_request.
 
 (* success => the client is authenticated as registered, the subject token is a live token of
    the declared type, and so is the actor token if one is given *)
